@@ -1226,7 +1226,11 @@ func (w *gWorld) candString(c Candidate) string {
 		tag = w.tagOfUfrag(ext.Value)
 		w.mu.Unlock()
 	}
-	return strings.Join([]string{t, gNetTok(c.NetworkType()), addr, name, pf, base, tag}, ":")
+	rv := "n" // does the candidate know its own transport address?
+	if ap.IsValid() {
+		rv = "a"
+	}
+	return strings.Join([]string{t, gNetTok(c.NetworkType()), addr, name, pf, base, tag, rv}, ":")
 }
 
 func (w *gWorld) portFlag(port int) string {
@@ -1308,13 +1312,16 @@ func (w *gWorld) render(res string) string {
 		}
 	}
 	sort.Strings(cs)
-	hid := 0
+	hid, unres := 0, 0
 	var lk []string
 	_ = a.loop.Run(a.loop, func(context.Context) {
 		for _, set := range a.localCandidates {
 			for _, c := range set {
 				if c.filterForLocationTracking() {
 					hid++
+				}
+				if !c.addrPort().IsValid() {
+					unres++
 				}
 			}
 		}
@@ -1378,8 +1385,8 @@ func (w *gWorld) render(res string) string {
 		}
 		return strings.Join(l, ",")
 	}
-	line := fmt.Sprintf("r=%s st=%s g=%d fl=%d t=%d c=%s ev=%s nil=%d nils=%d late=%d led=%s tot=%d/%d mg=%s held=%d hid=%d pend=%s",
-		res, st, w.gen, w.failed, time.Since(w.epoch).Milliseconds(), j(cs), j(ev), nilsOp, w.nilsGen[w.gen], w.late, j(led), w.opens, w.closes, j(mg), w.held, hid, j(pend))
+	line := fmt.Sprintf("r=%s st=%s g=%d fl=%d t=%d c=%s ev=%s nil=%d nils=%d late=%d led=%s tot=%d/%d mg=%s held=%d hid=%d nr=%d pend=%s",
+		res, st, w.gen, w.failed, time.Since(w.epoch).Milliseconds(), j(cs), j(ev), nilsOp, w.nilsGen[w.gen], w.late, j(led), w.opens, w.closes, j(mg), w.held, hid, unres, j(pend))
 	if w.cfg.cg {
 		line += " lk=" + strings.Join(lk, "+")
 		if len(lk) == 0 {
